@@ -376,6 +376,8 @@ func mapFieldGoType(protoFile *protogen.File, goPackageForFile map[string]string
 			ktype = "uint64"
 		case protoreflect.StringKind:
 			ktype = "string"
+		case protoreflect.BoolKind:
+			ktype = "bool"
 		default:
 			ktype = fmt.Sprintf("<<invalid>> /*%v*/", kd.Kind())
 		}
